@@ -1,6 +1,7 @@
 #!/bin/sh
 # usage: rebase_patch.sh <patch> <old-commit> : rewrite <patch> (made against <old-commit>) so that it applies to /repo HEAD.
-# On a conflict the patch's side is taken and the F13 fix (the only difference between the two commits) is re-applied textually.
+# On a conflict the patch's side is taken and the fixes made since (F13: recursive-call offset, F14: ring bonds first) are
+# re-applied textually where the patch's version still has the old text.
 set -e
 P="$1"; OLD="$2"
 T=$(mktemp -d /tmp/rebase_XXXX)
@@ -14,17 +15,19 @@ git checkout -q main
 if git -c user.email=a@b -c user.name=x cherry-pick $S >/dev/null 2>&1; then
   echo "rebased $P"
 else
-  git checkout --theirs selfies/encoder.py
+  for f in $(git diff --name-only --diff-filter=U); do git checkout --theirs "$f"; done
   /venv/bin/python - <<'PY'
 import re
 p="selfies/encoder.py"; s=open(p).read()
 s2=s.replace("attribution_maps, len(derived))","attribution_maps,\n                    attribution_index + len(derived))")
-assert s2!=s
+s2=re.sub(r"^( *)(\w+) = mol\.get_out_dirbonds\(curr\)\n", lambda m: "%s# ring symbols first: that is where the decoder puts ring bonds\n%s%s = sorted(mol.get_out_dirbonds(curr),\n%s%s key=lambda b: not b.ring_bond)\n" % (m.group(1), m.group(1), m.group(2), m.group(1), " " * (len(m.group(2)) + 10)), s2, flags=re.M)
+assert s2!=s, "no textual re-application possible"
 open(p,"w").write(s2)
+compile(s2, p, "exec")
 PY
   git add -A; git -c user.email=a@b -c user.name=x commit -qm seeded
   echo "rebased-with-resolution $P"
 fi
-grep -n "attribution_index + len(derived)\|, len(derived))" selfies/encoder.py | head
+grep -n "sorted(mol.get_out_dirbonds\|attribution_index + len(derived)\|get_out_dirbonds(curr)" selfies/encoder.py | head -5
 git diff HEAD~1 HEAD > "$P.new"; mv "$P.new" "$P"
 cd /; rm -rf "$T"
